@@ -38,6 +38,13 @@ def run(ctx):
             src, ast = proggen.pp(root), proggen.program_term(root)
             for st in progsuite.STORES:
                 pmeta[progsuite.prog_case(prog_cases, st, src, '(i 5)', progsuite.HOSTS[k % len(progsuite.HOSTS)], ast)] = 'testers'
+        # identifiers as tested values / arms on CLONES of the built object (each of the four public clone helpers): which operand is
+        # evaluated shows in the host's resolve calls, and a clone must behave like the original
+        clone_cases = []
+        for src in ('flag ?> yes |> no', 'left && right', 'left || right', '!! flag', '?? flag', 'flag !> yes |> no', 'a ^^ b', '() ?> yes |> no', '$! && right', '1 || right'):
+            for st in ('simple', 'simpleclone', 'simpleclone2', 'simpleclone3', 'simpleclone4'):
+                for host in progsuite.HOSTS[1:]:
+                    clone_cases.append(['RUN', f'cl{len(clone_cases)}', st, vlib.esc(src), '-', host])
     ctx.evaluations = len(cases) + len(prog_cases)
     if not h_ok:
         return
@@ -73,6 +80,19 @@ def run(ctx):
         pstats = progsuite.compare_prog(ctx, prog_cases, pmeta, pimpl, pmodel, want_balance=False)
         for c in prog_cases:
             ctx.distinct.add(('prog', c[3], c[4]))
+        ci_ = vlib.run_impl(clone_cases, 'c10clone', per_case_s=5.0)
+        ref_ = {}
+        for c in clone_cases:
+            if c[2] == 'simple':
+                ref_[(c[3], c[5])] = ci_.get(c[1])
+        for c in clone_cases:
+            if c[2] != 'simple':
+                a_, b_ = progsuite.parse_impl(ci_.get(c[1])), progsuite.parse_impl(ref_.get((c[3], c[5])))
+                ctx.distinct.add(('clone', c[2], c[3], c[5]))
+                if b_['kind'] == 'ok' and (a_['kind'] != 'ok' or progsuite.canon(a_['value']) != progsuite.canon(b_['value']) or progsuite.canon(a_['log']) != progsuite.canon(b_['log'])):
+                    ctx.fail('oracle', c, impl=ci_.get(c[1]), model=None, expect=ref_.get((c[3], c[5])), note=f'on a clone of the built object ({c[2]}) the testing construct {vlib.unesc(c[3])!r} evaluates other operands / arms than on the original (value or resolve calls differ)')
+        ctx.evaluations += len(clone_cases)
+        ctx.suites['RUN.testers on clones'] = len(clone_cases)
         ctx.suites['PROG.logic'] = len(prog_cases)
         ctx.suites['PROG.logic outcomes'] = pstats
     ctx.exhaustive = True
